@@ -231,6 +231,8 @@ func verifyFunction(prog *Program, db *SpecDB, con *Contract) (res *FuncResult) 
 				Props: c.Props, PC: r.st.pc, Goal: pu, Src: c.Src})
 			r.st.pc = vc.define("pc", "Bool", andT(r.st.pc, pu))
 		}
+		// call bookkeeping of this function itself (so that its own ensures / frame see it)
+		f.applyLogs(con, post, r.st)
 		for i, c := range con.Ensures {
 			label := c.Label
 			if label == "" {
